@@ -3,7 +3,7 @@
 
 def register(prop, J):
     fn = "^TestC14Fn"
-    wire = "^TestC14(Client|Router|Malformed)"
+    wire = "^TestC14(Client|Router|Malformed|Overlap)"
     prop("C14",
          rule="rapid-generated (verb x path x query x body x threshold) at three levels (Encode/Decode functions, public request "
               "constructors through an HTTP hop, hand-registered restli server) plus hand-written malformed envelopes; non-trivial = "
